@@ -279,3 +279,14 @@ def nontrivial(rec):
         return any(c["b"] in sk for n, g in rec["m0"].items() if n not in sk for c in g["comps"])
     sk = set(rec["opts"]["skip"])
     return any(c["b"] in sk for n, g in rec["src"].items() if n not in sk for c in g["comps"])
+
+
+def classify(rec, pfail, mfail, extra, rep):
+    if rec.get("_acc") == "var" and pfail == "compiles" and extra and extra[0] == "F-C13-1":
+        rep.known("F-C13-1", "designspace path: a remaining glyph is composed in one master (a kept component before a skipped one) "
+                             "and drawn as plain contours in another; inlining the skipped component reorders the contours in that "
+                             "master only and the build fails, although it succeeds when nothing is skipped")
+        return "known:F-C13-1"
+    if pfail != "none" and rec.get("_acc") == "var":
+        rep.notes.setdefault("witnesses", []).append({"tid": rec["tid"], "clause": pfail, "err": rec.get("err", "")})
+    return None
